@@ -203,6 +203,11 @@ pub enum Prior {
     Export(ProgSpec),
     /// arbitrary old file contents
     Bytes(Vec<u8>),
+    /// old contents RELATED to what is about to be exported (what an "is the file up to date?"
+    /// shortcut has to tell apart): the fault-free export of the same circuit, 0 = as it is,
+    /// 1 = followed by `extra` (a stale tail), 2 = cut off after `at` bytes, 3 = with the byte at
+    /// `at` replaced by `extra[0]`
+    Related { kind: u8, at: usize, extra: Vec<u8> },
 }
 
 #[derive(Clone, Debug, Serialize, Deserialize, PartialEq, Eq)]
@@ -587,6 +592,24 @@ fn run_world_inner(w: &World) -> Obs {
             Prior::Bytes(b) => {
                 seams::disk_put(pstr, b.clone());
                 bump(&mut obs.counters, "prior_bytes");
+            }
+            Prior::Related { kind, at, extra } => {
+                if let Some(r) = &ref_bytes {
+                    let mut b = r.clone();
+                    match kind {
+                        0 => {}
+                        1 => b.extend_from_slice(extra),
+                        2 => b.truncate(at % (b.len() + 1)),
+                        _ => {
+                            if !b.is_empty() {
+                                let i = at % b.len();
+                                b[i] = extra.first().copied().unwrap_or(b'7');
+                            }
+                        }
+                    }
+                    seams::disk_put(pstr, b);
+                    bump(&mut obs.counters, "prior_related_to_this_export");
+                }
             }
             Prior::Export(pp) => {
                 if let Ok(pc) = compile_ssa(pp, w.dedup) {
@@ -1131,7 +1154,16 @@ fn draw_read_plan(p: &mut Prng, len: usize) -> Plan {
 fn draw_priors(plan: &CasePlan, p: &mut Prng) -> Vec<Prior> {
     let n = if p.chance(2, 3) { 1 } else { p.range(2, 3) };
     (0..n)
-        .map(|_| match p.below(4) {
+        .map(|_| match p.below(5) {
+            4 => Prior::Related {
+                kind: p.below(4) as u8,
+                at: p.usize_below(4000),
+                extra: match p.below(3) {
+                    0 => b"\n".to_vec(),
+                    1 => b"2 1 0 1 5 XOR\n1 1 5 6 INV\n".to_vec(),
+                    _ => (0..p.range(1, 300)).map(|_| *p.pick(b"0123456789 \n XORANDINV")).collect(),
+                },
+            },
             0 => {
                 // old contents: longer than most exports
                 let len = p.range(1, 6000) as usize;
@@ -1168,7 +1200,7 @@ const FILE_NAMES: &[&[u8]] = &[
 const TOKENS: &[&str] = &[
     "0", "1", "2", "3", "9", "10", "161", "4294967295", "4294967296", "18446744073709551615", "18446744073709551616",
     "99999999999999999999999", "4000000000000", "-1", "+1", "00", "XOR", "AND", "INV", "NAND", "EQ", "EQW", "MAND", "xor", "", "a", "1e3",
-    "0x10", "١",
+    "0x10", "١", "²", "１２", "5٣",
 ];
 
 fn draw_corruptions(p: &mut Prng, len: usize, ntokens: usize, nlines: usize, structured: bool) -> Vec<Corruption> {
@@ -1778,6 +1810,15 @@ fn run_sweep(base: &World, acc: &mut Acc) {
         Prior::Bytes(vec![b'7'; bytes.len() * 2 + 64]),
         Prior::Bytes(b"1 1\n".to_vec()),
         Prior::Export(ProgSpec { name: "prior".into(), src: "pub fn main(a: u16, b: u16) -> (u16, bool) {\n    (a + b, a < b)\n}\n".into(), consts: vec![] }),
+        // old contents related to this very export: the same, the same plus a stale tail, a prefix, one byte off
+        Prior::Related { kind: 0, at: 0, extra: vec![] },
+        Prior::Related { kind: 1, at: 0, extra: b"\n".to_vec() },
+        Prior::Related { kind: 1, at: 0, extra: b"2 1 0 1 5 XOR\n".to_vec() },
+        Prior::Related { kind: 1, at: 0, extra: b"7".to_vec() },
+        Prior::Related { kind: 2, at: bytes.len() / 2, extra: vec![] },
+        Prior::Related { kind: 2, at: bytes.len().saturating_sub(1), extra: vec![] },
+        Prior::Related { kind: 3, at: 0, extra: b"7".to_vec() },
+        Prior::Related { kind: 3, at: bytes.len().saturating_sub(2), extra: b"7".to_vec() },
     ] {
         let mut w = base.clone();
         w.prior = vec![prior];
